@@ -1,6 +1,8 @@
 import PkgModel.Specifier
 import PkgModel.Spec.Admits
 import PkgProofs.Props.C01
+import PkgProofs.Lemmas.ScanStr
+import PkgProofs.Lemmas.SpecSplit
 /-!
 # C03 — `Specifier.contains` implements the PEP 440 operator semantics
 
@@ -8,8 +10,9 @@ Model: `S.Spec.compare` / `S.Spec.contains` (`PkgModel/Specifier.lean`) — the 
 detours.  Spec: `Pep440.admits` (`PkgModel/Spec/Admits.lean`).
 
 The comparisons re-parse rendered versions (`Version(prospective.public)`, `Version(spec.base_version)`, …).
-That "re-parsing a rendered version gives it back" is C02's theorem; here it is an explicit hypothesis
-(`hscan`/`hpub`/`hbase` below, all three instances of `C02.scan_str`) so that it can be discharged by one `exact`.
+That "re-parsing a rendered version gives it back" is C02's theorem `V.scan_str`; `reparse_public` and
+`reparse_base` below are its two instances used here.  Candidates are well formed (`V.WF`): that is what
+`scan` returns (`V.scan_wf`).
 -/
 namespace C03
 open V Py S Pep440
@@ -31,7 +34,7 @@ theorem eq_cmp (a b : Ver) : a.eq b = isEQ (cmp a b) := by
   rw [(C01.eq_agrees a b).1, C01.cmp_eq_pep440]; cases cmp a b <;> rfl
 
 /-- two base versions are equal as versions iff epoch and zero-padded release agree -/
-theorem base_eq (a b : Ver) : (baseVer a).eq (baseVer b) = sameRelease a b := by
+theorem baseVer_eq (a b : Ver) : (baseVer a).eq (baseVer b) = sameRelease a b := by
   rw [eq_cmp]
   simp only [cmp, baseVer, phase, preNum, postCmp, devCmp, localCmp, sameRelease]
   have h4 : compare 4 4 = Ordering.eq := by decide
@@ -47,88 +50,186 @@ theorem base_eq (a b : Ver) : (baseVer a).eq (baseVer b) = sameRelease a b := by
     · rw [Nat.compare_eq_lt.mpr h]; rfl
     · rw [Nat.compare_eq_gt.mpr h]; rfl
 
-section ops
-variable {WF : Ver → Prop}
+theorem baseVer_cmp (a b : Ver) : isEQ (cmp (baseVer a) (baseVer b)) = sameRelease a b := by
+  rw [← eq_cmp]; exact baseVer_eq a b
+
+/-! ### re-parsing rendered versions (instances of `V.scan_str`) -/
+
+theorem wf_release {v : Ver} (h : WF v) : v.release ≠ [] := by
+  simp only [WF, Ver.wf, Bool.and_eq_true] at h
+  intro e; rw [e] at h; simp at h
+
+theorem wf_pub (v : Ver) (h : WF v) : WF (pub v) := by
+  simp only [WF, Ver.wf, Bool.and_eq_true] at h ⊢
+  exact ⟨h.1, rfl⟩
+
+theorem wf_base (v : Ver) (h : WF v) : WF (baseVer v) := by
+  simp only [WF, Ver.wf, Bool.and_eq_true] at h ⊢
+  exact ⟨h.1, rfl⟩
+
+theorem pub_str (v : Ver) : (pub v).str = v.public := by
+  simp [Ver.str, Ver.localStr, pub, Ver.public, Ver.base]
+
+theorem base_str (v : Ver) : (baseVer v).str = v.base := by
+  simp [Ver.str, Ver.localStr, baseVer, Ver.public, Ver.base]
+
+theorem str_noloc (v : Ver) (h : v.loc = none) : v.str = v.public := by
+  simp [Ver.str, Ver.localStr, h]
+
+theorem reparse_public (v : Ver) (h : WF v) : scan v.public = some (pub v) := by
+  rw [← pub_str]; exact scan_str _ (wf_pub v h)
+
+theorem reparse_base (v : Ver) (h : WF v) : scan v.base = some (baseVer v) := by
+  rw [← base_str]; exact scan_str _ (wf_base v h)
+
+/-- `N!1.2.3` with the epoch written out (also when it is 0): the text `_version_join` produces -/
+theorem scan_epoch_release (e r0 : Nat) (ns : List Nat) :
+    scan (dec e ++ [33] ++ renderRelease (r0 :: ns)) = some ⟨e, r0 :: ns, none, none, none, none⟩ := by
+  have hrest := scanRest_render e r0 ns none none none none rfl
+  simp only [preS, postS, devS, locS, List.append_nil] at hrest
+  have hnd : NoDigit (tailS (ns.map dec)) := by
+    have := noDigit_tailS (ns.map dec) [] (by intro c hc; simp at hc)
+    simpa using this
+  have hr0 := optNum_dec r0 _ hnd
+  have hnb : NoDigit (33 :: (dec r0 ++ tailS (ns.map dec))) := by
+    intro c hc; simp at hc; subst hc; decide
+  have hcore : scanCore (dec e ++ (33 :: (dec r0 ++ tailS (ns.map dec)))) =
+      some (⟨e, r0 :: ns, none, none, none, none⟩, []) := by
+    rw [scanCore_eq, stripV_dec, optNum_dec e _ hnb]
+    simp only [epochStep, hr0, hrest]
+  have hstr : dec e ++ [33] ++ renderRelease (r0 :: ns) = dec e ++ (33 :: (dec r0 ++ tailS (ns.map dec))) := by
+    simp [renderRelease, join_dot]
+  obtain ⟨d, ds, hd, hdd⟩ := dec_head e
+  have hws : (dec e ++ (33 :: (dec r0 ++ tailS (ns.map dec)))).dropWhile isWs =
+      dec e ++ (33 :: (dec r0 ++ tailS (ns.map dec))) := by
+    simp [hd, isWs_digit hdd]
+  simp [scan, hstr, hws, hcore]
 
 /-! ### `<=`, `>=`, `==V`, `!=V`, `<`, `>`: C01 facts plus re-parsing -/
 
-theorem le_eq_spec (hpub : ∀ v, WF v → scan v.public = some (pub v))
-    (c v : Ver) (raw : Str) (wc : WF c) (hv : scan raw = some v) :
+theorem le_eq_spec (c v : Ver) (raw : Str) (wc : WF c) (hv : scan raw = some v) :
     compareLE c raw = .ok (admits .le v false raw c) := by
-  simp [compareLE, version, hpub c wc, hv, admits, le_cmp, bind, Except.bind, pure, Except.pure]
+  simp [compareLE, version, reparse_public c wc, hv, admits, le_cmp, bind, Except.bind, pure, Except.pure]
 
-theorem ge_eq_spec (hpub : ∀ v, WF v → scan v.public = some (pub v))
-    (c v : Ver) (raw : Str) (wc : WF c) (hv : scan raw = some v) :
+theorem ge_eq_spec (c v : Ver) (raw : Str) (wc : WF c) (hv : scan raw = some v) :
     compareGE c raw = .ok (admits .ge v false raw c) := by
-  simp [compareGE, version, hpub c wc, hv, admits, ge_cmp, bind, Except.bind, pure, Except.pure]
+  simp [compareGE, version, reparse_public c wc, hv, admits, ge_cmp, bind, Except.bind, pure, Except.pure]
 
-theorem eq_eq_spec (hpub : ∀ v, WF v → scan v.public = some (pub v))
-    (c v : Ver) (raw : Str) (wc : WF c) (hv : scan raw = some v) (hnw : endsWith raw [46, 42] = false) :
+theorem eq_eq_spec (c v : Ver) (raw : Str) (wc : WF c) (hv : scan raw = some v)
+    (hnw : endsWith raw [46, 42] = false) :
     compareEqual c raw = .ok (admits .eq v false raw c) := by
   cases hl : v.loc.isNone <;>
-    simp [compareEqual, version, hpub c wc, hv, hnw, hl, admits, eq_cmp, bind, Except.bind, pure, Except.pure]
+    simp [compareEqual, version, reparse_public c wc, hv, hnw, hl, admits, eq_cmp, bind, Except.bind, pure,
+      Except.pure]
 
-theorem ne_eq_spec (hpub : ∀ v, WF v → scan v.public = some (pub v))
-    (c v : Ver) (raw : Str) (wc : WF c) (hv : scan raw = some v) (hnw : endsWith raw [46, 42] = false) :
+theorem ne_eq_spec (c v : Ver) (raw : Str) (wc : WF c) (hv : scan raw = some v)
+    (hnw : endsWith raw [46, 42] = false) :
     compareNotEqual c raw = .ok (admits .ne v false raw c) := by
-  have h := eq_eq_spec hpub c v raw wc hv hnw
+  have h := eq_eq_spec c v raw wc hv hnw
   simp [compareNotEqual, h, admits, bind, Except.bind, pure, Except.pure]
 
 /-- `<V` -/
-theorem lt_eq_spec (hbase : ∀ v, WF v → scan v.base = some (baseVer v))
-    (c v : Ver) (raw : Str) (wc : WF c) (wv : WF v) (hv : scan raw = some v) :
+theorem lt_eq_spec (c v : Ver) (raw : Str) (wc : WF c) (hv : scan raw = some v) :
     compareLT c raw = .ok (admits .lt v false raw c) := by
-  simp only [compareLT, version, hv, hbase c wc, hbase v wv, base_eq, lt_cmp, admits, bind, Except.bind, pure,
-    Except.pure]
+  have wv := scan_wf raw v hv
+  simp only [compareLT, version, hv, reparse_base c wc, reparse_base v wv, baseVer_eq, lt_cmp, admits, bind,
+    Except.bind, pure, Except.pure]
   cases isLT (cmp c v) <;> cases v.isPre <;> cases c.isPre <;> cases sameRelease c v <;> rfl
-
-/-- what `_compare_greater_than` computes, on structures -/
-def gtCode (c v : Ver) : Bool :=
-  isGT (cmp c v) && !(!v.isPost && c.isPost && sameRelease c v) && !(c.loc.isSome && sameRelease c v)
 
 theorem localStr_isSome (c : Ver) : c.localStr.isSome = c.loc.isSome := by
   cases h : c.loc <;> simp [Ver.localStr, h]
 
-theorem gt_eq_code (hbase : ∀ v, WF v → scan v.base = some (baseVer v))
-    (c v : Ver) (raw : Str) (wc : WF c) (wv : WF v) (hv : scan raw = some v) :
-    compareGT c raw = .ok (gtCode c v) := by
-  simp only [compareGT, version, hv, hbase c wc, hbase v wv, base_eq, gt_cmp, gtCode, localStr_isSome, bind,
-    Except.bind, pure, Except.pure]
-  cases isGT (cmp c v) <;> cases v.isPost <;> cases c.isPost <;> cases sameRelease c v <;> cases c.loc.isSome <;> rfl
-
-/-- the class of inputs on which `>V` departs from the statement: a candidate with a local label that has V's
-release but is not V itself plus a label (DESIGN §8 row 4) -/
-def gtDefect (c v : Ver) : Bool := c.loc.isSome && sameRelease c v && !isEQ (cmp (pub c) v)
-
-theorem cmp_eq_sameRelease (a b : Ver) (h : isEQ (cmp a b) = true) : sameRelease (pub a) b = true := by
-  simp only [cmp] at h
-  simp only [sameRelease, pub]
-  rcases Nat.lt_trichotomy a.epoch b.epoch with he | he | he
-  · rw [Nat.compare_eq_lt.mpr he] at h; simp [Ordering.then, isEQ] at h
-  · rw [Nat.compare_eq_eq.mpr he] at h
-    simp only [he, beq_self_eq_true, Bool.true_and]
-    revert h; cases padCmp a.release b.release <;> simp [Ordering.then, isEQ]
-  · rw [Nat.compare_eq_gt.mpr he] at h; simp [Ordering.then, isEQ] at h
-
-/-- **`>V` (partial).**  Full statement `compareGT c raw = .ok (admits .gt v false raw c)` fails on the present
-code exactly on `gtDefect` (see `gt_defect_witness`). -/
-theorem gt_eq_spec_partial (hbase : ∀ v, WF v → scan v.base = some (baseVer v))
-    (c v : Ver) (raw : Str) (wc : WF c) (wv : WF v) (hv : scan raw = some v) (hcls : gtDefect c v = false) :
+/-- `>V` -/
+theorem gt_eq_spec (c v : Ver) (raw : Str) (wc : WF c) (hv : scan raw = some v) :
     compareGT c raw = .ok (admits .gt v false raw c) := by
-  rw [gt_eq_code hbase c v raw wc wv hv]
-  congr 1
-  simp only [gtCode, admits, localVersionOf]
-  simp only [gtDefect] at hcls
-  have himp := cmp_eq_sameRelease (pub c) v
-  have hpp : sameRelease (pub (pub c)) v = sameRelease c v := rfl
-  rw [hpp] at himp
-  cases hL : c.loc.isSome <;> cases hS : sameRelease c v <;> cases hE : isEQ (cmp (pub c) v) <;>
-    simp_all
-
-end ops
+  have wv := scan_wf raw v hv
+  simp only [compareGT, version, hv, reparse_base c wc, reparse_base v wv, reparse_public c wc, baseVer_eq, baseVer_cmp, gt_cmp,
+    eq_cmp, admits, localVersionOf, localStr_isSome, bind, Except.bind, pure, Except.pure]
+  cases isGT (cmp c v) <;> cases v.isPost <;> cases c.isPost <;> cases sameRelease c v <;> cases c.loc.isSome <;>
+    cases isEQ (cmp (pub c) v) <;> rfl
 
 /-- `===S`: string equality, case-insensitively, with the candidate's normalised string -/
 theorem arbitrary_eq_spec (v c : Ver) (raw : Str) :
     compareArbitrary c raw = .ok (admits .arbitrary v false raw c) := rfl
+
+/-! ### `==V.*`, `!=V.*`: from token lists of rendered strings to "zero-padded prefix" -/
+
+theorem canon_public (c : Ver) (wc : WF c) : canonNoStrip c.public = .ok c.public := by
+  simp [canonNoStrip, canonicalizeVersion, reparse_public c wc, Ver.canon, pub_str]
+
+theorem canon_text (t : Str) (v : Ver) (hv : scan t = some v) : canonNoStrip t = .ok v.str := by
+  simp [canonNoStrip, canonicalizeVersion, hv, Ver.canon]
+
+theorem endsWith_wild (t : Str) : endsWith (t ++ [46, 42]) [46, 42] = true := by
+  simp [endsWith, startsWith]
+
+theorem take_wild (t : Str) : (t ++ [46, 42]).take ((t ++ [46, 42]).length - 2) = t := by
+  apply List.take_left'; simp
+
+def Bare (v : Ver) : Prop := v.pre = none ∧ v.post = none ∧ v.dev = none ∧ v.loc = none
+
+theorem sufToks_bare {v : Ver} (h : Bare v) : SS.sufToks v = [] := by
+  obtain ⟨h1, h2, h3, _⟩ := h
+  simp [SS.sufToks, SS.preTok, SS.postTok, SS.devTok, h1, h2, h3]
+
+/-- `==V.*` -/
+theorem eq_wild_eq_spec (c v : Ver) (t : Str) (wc : WF c) (hv : scan t = some v) (hb : Bare v) :
+    compareEqual c (t ++ [46, 42]) = .ok (admits .eq v true (t ++ [46, 42]) c) := by
+  have wv := scan_wf t v hv
+  have hsv : versionSplit v.str = (v.epoch :: v.release).map dec := by
+    rw [str_noloc v hb.2.2.2, SS.versionSplit_public v (wf_release wv), sufToks_bare hb, List.append_nil]
+  have hsc := SS.versionSplit_public c (wf_release wc)
+  have hX : ∀ x ∈ SS.sufToks c, isDigitStr x = false := fun x hx => (SS.sufToks_class c x hx).1
+  have hpad := SS.pad_take (c.epoch :: c.release) (v.epoch :: v.release) (SS.sufToks c) hX
+  simp only [compareEqual, endsWith_wild, take_wild, canon_public c wc, canon_text t v hv, if_true, bind,
+    Except.bind, pure, Except.pure, hsv, hsc]
+  congr 1
+  rw [hpad]
+  simp only [admits, if_true, prefixMatch, zeroPadPrefix]
+  rw [SS.nat_beq_comm]
+
+/-- `!=V.*` -/
+theorem ne_wild_eq_spec (c v : Ver) (t : Str) (wc : WF c) (hv : scan t = some v) (hb : Bare v) :
+    compareNotEqual c (t ++ [46, 42]) = .ok (admits .ne v true (t ++ [46, 42]) c) := by
+  have h := eq_wild_eq_spec c v t wc hv hb
+  simp [compareNotEqual, h, admits, bind, Except.bind, pure, Except.pure]
+
+/-! ### `~=V` -/
+
+theorem dropLast_cons_ne {α} (a : α) (l : List α) (h : l ≠ []) : (a :: l).dropLast = a :: l.dropLast := by
+  cases l with
+  | nil => exact absurd rfl h
+  | cons b bs => rfl
+
+/-- `~=V`: `>=V` and `==P.*`, `P` being `V`'s epoch and release minus the last component -/
+theorem compat_eq_spec (c v : Ver) (raw : Str) (wc : WF c) (hv : scan raw = some v) (hloc : v.loc = none)
+    (h2 : 2 ≤ v.release.length) :
+    compareCompatible c raw = .ok (admits .compatible v false raw c) := by
+  have wv := scan_wf raw v hv
+  have hrel := wf_release wv
+  have hsplit : versionSplit v.str = (v.epoch :: v.release).map dec ++ SS.sufToks v := by
+    rw [str_noloc v hloc, SS.versionSplit_public v hrel]
+  have htw : ((v.epoch :: v.release).map dec ++ SS.sufToks v).takeWhile isNotSuffix =
+      (v.epoch :: v.release).map dec :=
+    SS.takeWhile_notSuffix _ _ (fun x hx => (SS.sufToks_class v x hx).2)
+  have hdl : ((v.epoch :: v.release).map dec).dropLast = dec v.epoch :: (v.release.dropLast).map dec := by
+    rw [← List.map_dropLast, dropLast_cons_ne _ _ hrel]; rfl
+  obtain ⟨r0, ns, hr⟩ : ∃ r0 ns, v.release.dropLast = r0 :: ns := by
+    cases h : v.release.dropLast with
+    | nil => have := congrArg List.length h; simp at this; omega
+    | cons a as => exact ⟨a, as, rfl⟩
+  have hscanp := scan_epoch_release v.epoch r0 ns
+  have hbare : Bare (⟨v.epoch, r0 :: ns, none, none, none, none⟩ : Ver) := ⟨rfl, rfl, rfl, rfl⟩
+  have hw := eq_wild_eq_spec c _ _ wc hscanp hbare
+  have hge := ge_eq_spec c v raw wc hv
+  simp only [compareCompatible, canon_text raw v hv, hsplit, htw, hdl, versionJoin, hr, hge, bind, Except.bind,
+    pure, Except.pure]
+  have hj : dec v.epoch ++ [33] ++ join [46] (List.map dec (r0 :: ns)) ++ [46, 42] =
+      dec v.epoch ++ [33] ++ renderRelease (r0 :: ns) ++ [46, 42] := rfl
+  rw [hj, hw]
+  have h1 : admits .compatible v false raw c = (admits .ge v false raw c && prefixMatch v.epoch (r0 :: ns) c) := by
+    simp only [admits, hr]
+  rw [h1]
+  cases admits .ge v false raw c <;> simp [admits]
 
 end C03
